@@ -53,7 +53,7 @@ harness!(sequence_extend_order, 6, {
     assert!(c.get(i) == expect);
 });
 
-// @harness props=C34,C15 tier=thorough timeout=3600 desc="(attempted; symbolic execution of the nested iterator chain did not finish in 900 s) decompose_sequence: the chunks pair exactly the non-deleted rows of the fragment, row id -> (fragment, physical offset), whatever is deleted (also whole segments); coverage = min..=max of the chunk's ids"
+// @harness props=C34,C15 tier=thorough timeout=900 desc="(attempted; symbolic execution of the nested iterator chain did not finish in 900 s) decompose_sequence: the chunks pair exactly the non-deleted rows of the fragment, row id -> (fragment, physical offset), whatever is deleted (also whole segments); coverage = min..=max of the chunk's ids"
 harness!(decompose_pairs_live_rows, 6, {
     // two range segments of <=2 ids each
     let mut seq = RowIdSequence::new();
